@@ -76,7 +76,7 @@ func main() {
 		name string
 		run  func()
 	}{
-		{"regression", runRegression}, {"bytes", runEveryByte}, {"triplets", runTriplets}, {"short", runShort}, {"sub4", runSubAlphabets}, {"resident", runResident}, {"runs", runRunStructured},
+		{"regression", runRegression}, {"bytes", runEveryByte}, {"triplets", runTriplets}, {"extended-inside", runExtendedInsideRuns}, {"short", runShort}, {"sub4", runSubAlphabets}, {"resident", runResident}, {"runs", runRunStructured},
 		{"macro", runMacro}, {"nonlatin1", runNonLatin1}, {"hints", runHints}, {"capacity", runCapacity}, {"sizes", runRequestedSizes},
 	}
 	only := os.Getenv("C02_ONLY") // development aid: comma-separated family names; the run is then marked incomplete
@@ -271,10 +271,43 @@ func runTriplets() {
 			}
 		}
 	}
+	// every digit pair (ASCII encodation packs two digits into one codeword, 130 + value) alone,
+	// inside text and inside a longer digit run, and every EDIFACT character quadrupled (four
+	// six-bit values in three codewords)
+	for v := 0; v < 100; v++ {
+		p := fmt.Sprintf("%02d", v)
+		texts = append(texts, p, "A"+p+"B", "12"+p+"34", p+p+p)
+	}
+	for c := 32; c <= 94; c++ {
+		ch := string(rune(c))
+		texts = append(texts, strings.Repeat(ch, 4), strings.Repeat(ch, 8), "@@@@"+strings.Repeat(ch, 4)+"@@@@")
+	}
 	texts = uniq(texts)
-	chk.Range(fmt.Sprintf("packed triples at the ends of the value range: every character of the C40, Text and X12 basic sets x 6, 7 and 12 repetitions, and every triple over {first, middle, last, last-but-one} character of each set, doubled and quadrupled, bare and behind one or two characters [%d texts]", len(texts)), len(texts),
+	chk.Range(fmt.Sprintf("packed triples at the ends of the value range (and every digit pair 00..99 and every EDIFACT character x 4, x 8): every character of the C40, Text and X12 basic sets x 6, 7 and 12 repetitions, and every triple over {first, middle, last, last-but-one} character of each set, doubled and quadrupled, bare and behind one or two characters [%d texts]", len(texts)), len(texts),
 		func(i int) string { return q(texts[i]) },
 		func(l *mc.Local, i int) { evalCase(l, "triplets", texts[i], hints{}, lvMatrix) })
+}
+
+// runExtendedInsideRuns: ONE extended character (0x80..0xFF, reached through upper shift inside
+// C40/Text) near the start of a long run of one encodation, for EVERY total length up to the
+// largest symbol: the text decoded so far passes every length at which a growing result buffer
+// is exactly full, with an extended character still to be re-encoded behind it.
+func runExtendedInsideRuns() {
+	var texts []string
+	for _, fill := range []string{"a", "A"} {
+		for n := 8; n <= 1556; n++ {
+			if chk.Quick() && n > 450 && n%3 != 0 {
+				continue
+			}
+			texts = append(texts, strings.Repeat(fill, 6)+"é"+strings.Repeat(fill, n-7))
+			if n%4 == 0 {
+				texts = append(texts, strings.Repeat(fill, n/2)+"\u00ff"+strings.Repeat(fill, n-n/2-1))
+			}
+		}
+	}
+	chk.Range(fmt.Sprintf("one extended character inside a long C40 / Text run: fill in {a, A} x every total length 8..1556 (quick: every third beyond 450) with e-acute as 7th character, and U+00FF in the middle for every fourth length [%d texts]", len(texts)), len(texts),
+		func(i int) string { return clip(texts[i]) },
+		func(l *mc.Local, i int) { evalCase(l, "extended-inside-run", texts[i], hints{}, lvStream) })
 }
 
 func runShort() {
